@@ -212,6 +212,15 @@ func (b *simByz) vecBytes(kind string, P, P2 []*big.Int, t int) [][]byte {
 		}
 		copy(v[1+dkgG2Len:], simG2Plus13(P[1]))
 		return [][]byte{v}
+	case "g2pm13-pair":
+		// two commitments leave G2 by opposite small-order components: their SUM (and the sum of the
+		// whole vector) is in G2, each of the two points is not
+		if t < 1 {
+			panic("g2pm13-pair needs t >= 1")
+		}
+		copy(v[1:], simG2Plus13k(P[0], 1))
+		copy(v[last:], simG2Plus13k(P[t], 12))
+		return [][]byte{v}
 	case "longer": // one more point than t+1
 		return [][]byte{append(v, dkgEncG2(big.NewInt(11))...)}
 	case "shorter": // one point less
@@ -225,6 +234,10 @@ func simShareBytes(kind string, P []*big.Int, to int) [][]byte {
 	ok := dkgMsgShare(s)
 	switch kind {
 	case "ok", "late":
+		return [][]byte{ok}
+	case "omit-latebad": // nothing in time; a well-formed WRONG share after the complaint has been answered
+		return [][]byte{dkgMsgShare(dkgMod(new(big.Int).Add(s, big.NewInt(9))))}
+	case "omit-lateok": // nothing in time; the right share after the complaint has been answered
 		return [][]byte{ok}
 	case "omit":
 		return nil
@@ -407,7 +420,8 @@ func (sr *simRun) byzPhase(ph int) {
 			if kind == "" {
 				kind = "ok"
 			}
-			if (kind == "late" && ph == 1) || (kind != "late" && ph == 0) {
+			veryLate := kind == "omit-latebad" || kind == "omit-lateok"
+			if (kind == "late" && ph == 1) || (veryLate && ph == 2) || (kind != "late" && !veryLate && ph == 0) {
 				var g []item
 				for _, s := range simShareBytes(kind, P, p) {
 					g = append(g, item{false, p, s})
